@@ -166,7 +166,8 @@ class Snap(object):
                 w, t = c
                 if w == 1:
                     return self.st.canon(t)
-                return self.st.canon(mk_byte(t, back))
+                from ..mem import mem_byte
+                return self.st.canon(mem_byte(t, back, w))
         if self.d['default'] == 'zero':
             return ZERO
         if self.d['default'] in ('sym', 'unknown'):
@@ -184,7 +185,8 @@ class Snap(object):
             cell = self.cells.get((sk, c - back))
             if cell is not None and back < cell[0]:
                 w, t = cell
-                return self.st.canon(t) if w == 1 else self.st.canon(mk_byte(t, back))
+                from ..mem import mem_byte
+                return self.st.canon(t) if w == 1 else self.st.canon(mem_byte(t, back, w))
         return None
 
     def initialised_upto(self, length):
@@ -343,3 +345,27 @@ def live_heap(fs, st, ignore=('st',)):
             continue
         out.append(oid)
     return out
+
+
+def queryresp_announced(fs, st):
+    """The descriptor count a QueryResp must announce on this path: capacity when more observations are pending
+    than fit, else the recorded count; None if the path compared neither."""
+    cap = ('div', ('add', fs.frame_size, C(-34)), C(20))
+    if st.prove_lt(cap, SEEN_COUNT):
+        return cap
+    if st.prove_le(SEEN_COUNT, cap):
+        return SEEN_COUNT
+    return None
+
+
+def queryresp_length_ok(fs, st, snap):
+    """-> (ok, announced, tolerated_short): frame length = 34 + 20 x announced count; a shorter frame is tolerated only
+    on a loop exit taken because the list ended early (contradicts count = list length, which is not proved here)."""
+    announced = queryresp_announced(fs, st)
+    if announced is None:
+        return False, None, False
+    want = ('add', ('mul', C(20), announced), C(34))
+    L = snap.length
+    exact = st.same(L, want) or (st.prove_le(L, want) and st.prove_le(want, L))
+    short_ok = (not exact) and any(str(k).startswith('exit:parseQuery#') for k in st.tags) and st.prove_le(L, want)
+    return exact or short_ok, announced, short_ok
